@@ -315,9 +315,16 @@ func Verif_C05_B2sWriteStepQ() {
 	c05WriteStep(off, n)
 }
 
-// Verif_C05_B2sWriteStepT: inductive Write step for EVERY offset 0..64 and every |p| 0..133.
+// Verif_C05_B2sWriteStepT: inductive Write step for EVERY offset 0..64 and |p| in
+// {0,1,2,rem-1,rem,rem+1,rem+63,rem+64,rem+65,rem+128,rem+133} (rem = 64-offset).
 func Verif_C05_B2sWriteStepT() {
-	c05WriteStep(verifrt.Choose(0, BlockSize), verifrt.Choose(0, 2*BlockSize+5))
+	off := verifrt.Choose(0, BlockSize)
+	rem := BlockSize - off
+	n := []int{0, 1, 2, rem - 1, rem, rem + 1, rem + 63, rem + 64, rem + 65, rem + 128, rem + 133}[verifrt.Choose(0, 10)]
+	if n < 0 {
+		n = 3
+	}
+	c05WriteStep(off, n)
 }
 
 // Verif_C05_B2sSumStepQ: Sum step at offsets {0,1,63,64}, sizes {1,16,20,32}.
